@@ -237,6 +237,8 @@ class Runner:
         if cl.w is not None and cl.srep is None:
             return
         r = sut(top.reset)
+        if isinstance(r, tuple) and len(r) == 2 and isinstance(r[1], dict):  # newer gym API: (obs, info)
+            r = r[0]
         r = snap(r)
         S = sut(cl.twin.functional_reset)
         if isinstance(r, Raised) or isinstance(S, Raised):
@@ -271,6 +273,8 @@ class Runner:
             if isinstance(r, Raised) != isinstance(f, Raised):
                 self.violate('step_outcome_differs', 'step', getattr(r, 'type', 'ok'), f'{r!r} vs {f!r}')
             return
+        if isinstance(r, tuple) and len(r) == 5:  # newer gym API: (obs, reward, terminated, truncated, info)
+            r = (r[0], r[1], bool(r[2]) or bool(r[3]), r[4])
         if not isinstance(r, tuple) or len(r) != 4:
             self.violate('step_result_shape', 'step', '-', f'step returned {type(r).__name__} of length {len(r) if hasattr(r, "__len__") else "?"}')
             return
